@@ -658,3 +658,96 @@ func TestVerifUnsatisfied(t *testing.T) {
 	}
 	t.Logf("unsatisfied-argument scenarios run: %d, failing: %d", n, failures)
 }
+
+// TestVerifUnsatisfiedBare (C13): the report when little or nothing is
+// supplied — no options at all, only a logger, only a converter, only an
+// unrelated input. Every parameter of the target is then missing: the error is
+// *ErrArgumentUnsatisfied, Args lists each parameter, and the message mentions
+// each of them, whatever else the report has to say.
+func TestVerifUnsatisfiedBare(t *testing.T) {
+	paramSets := [][]label{
+		{{"x", "B", ""}},
+		{{"", "B", ""}},
+		{{"x", "B", "a"}},
+		{{"", "B", "a"}},
+		{{"x", "B", ""}, {"y", "B", "a"}},
+		{{"x", "B", ""}, {"", "B", "a"}},
+	}
+	for _, params := range paramSets {
+		for mode := 0; mode < 4; mode++ {
+			var rec []binding
+			f, err := NewFunc(mkFunc("target", params, nil, &rec))
+			if err != nil {
+				t.Fatal(err)
+			}
+			var opts []Arg
+			desc := "no options"
+			switch mode {
+			case 1:
+				opts = []Arg{Logger(hclog.NewNullLogger())}
+				desc = "only a logger"
+			case 2:
+				opts = []Arg{Logger(hclog.NewNullLogger()), Converter(mkFunc("conv", []label{{"", "A", "zz"}}, []label{{"q", "A", "k"}}, &rec))}
+				desc = "only an unrelated converter"
+			case 3:
+				opts = []Arg{Logger(hclog.NewNullLogger()), inputArg(label{"w", "A", ""})}
+				desc = "only an unrelated input"
+			}
+			if mode == 0 {
+				opts = nil
+			}
+			var cerr error
+			func() {
+				defer func() {
+					if r := recover(); r != nil {
+						t.Errorf("FAILING-INPUT unsatisfied-bare params=%v %s: panic %v", params, desc, r)
+					}
+				}()
+				if mode == 0 {
+					// without a logger option the default logger is used; keep the output small
+					r1 := f.Call(Logger(hclog.NewNullLogger()))
+					cerr = r1.Err()
+					r2 := f.Call()
+					cerr2 := r2.Err()
+					if (cerr == nil) != (cerr2 == nil) {
+						t.Errorf("FAILING-INPUT unsatisfied-bare params=%v: Call() and Call(Logger) disagree", params)
+					}
+					if cerr2 != nil {
+						cerr = cerr2
+					}
+				} else {
+					r := f.Call(opts...)
+					cerr = r.Err()
+				}
+			}()
+			ue, ok := cerr.(*ErrArgumentUnsatisfied)
+			if !ok || ue == nil {
+				t.Errorf("FAILING-INPUT unsatisfied-bare params=%v %s: error is %T (%v), not the unsatisfied-argument error", params, desc, cerr, cerr)
+				continue
+			}
+			if len(rec) > 0 {
+				t.Errorf("FAILING-INPUT unsatisfied-bare params=%v %s: a function body was executed", params, desc)
+			}
+			if len(ue.Args) != len(params) {
+				t.Errorf("FAILING-INPUT unsatisfied-bare params=%v %s: Args lists %d values, want %d", params, desc, len(ue.Args), len(params))
+			}
+			msg := ue.Error()
+			for _, a := range ue.Args {
+				if !strings.Contains(msg, a.String()) {
+					t.Errorf("FAILING-INPUT unsatisfied-bare params=%v %s: the message does not mention the missing argument %s", params, desc, a.String())
+				}
+			}
+			for _, p := range params {
+				found := false
+				for _, a := range ue.Args {
+					if a.Name == p.name && a.Subtype == p.sub && a.Type == p.rtype() {
+						found = true
+					}
+				}
+				if !found {
+					t.Errorf("FAILING-INPUT unsatisfied-bare params=%v %s: parameter %v is not listed in Args", params, desc, p)
+				}
+			}
+		}
+	}
+}
